@@ -101,10 +101,16 @@ def execute(job):
         # that quarter tick (a difference equal to max_diff still associates)
         eclock = geom.Clock(clock.t0 + 0.25 * clock.dt, clock.dt) if c["fmt"] in ("tum", "bag") and (n // 5) % 2 else clock
         names = []
+        # surroundings (sixth seeded round): every other case the estimates' names END with the reference's name (est0_gt.txt / gt.txt),
+        # and every third pair of cases the inputs lie in a sub-directory - the exports still go to the working directory under the stem
+        tail = "_gt" if n % 2 and not bag else ""
+        sub = "data/" if (n // 2) % 3 == 0 and not bag else ""
+        if sub:
+            os.makedirs(os.path.join(d, "data"), exist_ok=True)
         for k, T in enumerate(c["trajs"]):
-            nm = "est%d%s" % (k, ext)
+            nm = "est%d%s%s" % (k, tail, ext)
             if not bag:
-                write_input(os.path.join(d, nm), T, c["fmt"], u, eclock)
+                write_input(os.path.join(d, sub + nm), T, c["fmt"], u, eclock)
             names.append(nm)
         if bag:
             with_ref = [("/gt", c["ref"], clock)] if c["useref"] else []
@@ -113,10 +119,10 @@ def execute(job):
             if c["useref"]:
                 argv += ["--ref", "/gt"]
         else:
-            argv = [c["fmt"]] + names
+            argv = [c["fmt"]] + [sub + nm for nm in names]
             if c["useref"]:
-                write_input(os.path.join(d, "gt" + ext), c["ref"], c["fmt"], u, clock)
-                argv += ["--ref", "gt" + ext]
+                write_input(os.path.join(d, sub + "gt" + ext), c["ref"], c["fmt"], u, clock)
+                argv += ["--ref", sub + "gt" + ext]
         if q["down"]:
             argv += ["--downsample", str(q["down"])]
         if q["mf"]:
@@ -195,13 +201,16 @@ def run(rep, tier, seed):
     p["id"] = "probe.pos"
     p["o"]["est"][0]["poses"][0]["p"][0] += 1
     probes.append(p)
-    g = next(t for t in traces if t["o"]["out"] == "ok" and t["c"]["useref"])
-    p = copy.deepcopy(g)
-    p["id"] = "probe.ref"
-    p["o"]["ref"][0]["poses"] = p["o"]["ref"][0]["poses"][:-1]
-    probes.append(p)
+    g = next((t for t in traces if t["o"]["out"] == "ok" and t["c"]["useref"] and t["o"]["ref"]), None)
+    if g is not None:
+        p = copy.deepcopy(g)
+        p["id"] = "probe.ref"
+        p["o"]["ref"][0]["poses"] = p["o"]["ref"][0]["poses"][:-1]
+        probes.append(p)
     rejects = core.validate("pipeline", "Trace_Pipeline", traces + probes, workers=8)
     rej = {x[0] for x in rejects}
+    if g is None:       # no run exported its reference: only possible on a tree whose traces P rejects
+        core.probe_fail(rejects, "no trace to make the reference probe from")
     if any(p["id"] not in rej for p in probes):
         core.probe_fail(rejects, "P accepted corrupted traces")
     rep.extra["probes_rejected"] = len(probes)
